@@ -177,6 +177,154 @@ fn summarize(ctx: &Ctx, prop: &str, tool: &str, outs: Vec<Out>, markers: &[&str]
     json!({"tool": tool, "built": true, "processes": outs.len(), "cases": cases, "reports": reports, "inconclusive_processes": inconclusive})
 }
 
+/// maps a line number of `file` at the pinned (root) commit of /repo to the working tree, using
+/// the hunks of `git diff -U0 <root commit> -- file`
+fn map_line(file: &str, old: u32) -> u32 {
+    let root = Command::new("git").args(["-C", "/repo", "rev-list", "--max-parents=0", "HEAD"]).output().ok().map(|o| String::from_utf8_lossy(&o.stdout).trim().to_string()).unwrap_or_default();
+    let out = Command::new("git").args(["-C", "/repo", "diff", "-U0", &root, "--", file]).output().ok().map(|o| String::from_utf8_lossy(&o.stdout).to_string()).unwrap_or_default();
+    let mut offset: i64 = 0;
+    for l in out.lines().filter(|l| l.starts_with("@@")) {
+        // @@ -a,b +c,d @@
+        let parts: Vec<&str> = l.split_whitespace().collect();
+        if parts.len() < 3 {
+            continue;
+        }
+        let p = |s: &str| -> (i64, i64) {
+            let s = &s[1..];
+            match s.split_once(',') {
+                Some((a, b)) => (a.parse().unwrap_or(0), b.parse().unwrap_or(1)),
+                None => (s.parse().unwrap_or(0), 1),
+            }
+        };
+        let (a, b) = p(parts[1]);
+        let (_c, d) = p(parts[2]);
+        let old_end = if b == 0 { a } else { a + b - 1 };
+        if old_end < old as i64 {
+            offset += d - b;
+        }
+    }
+    (old as i64 + offset).max(1) as u32
+}
+
+/// Line coverage of the property's anchor ranges in /repo/src under the property's own quick
+/// workload (a monitor that never reached its anchors has not monitored the property).
+pub fn anchor_coverage(ctx: &Ctx, prop: &str) -> Value {
+    let vd = verif_dir();
+    let mut b = cargo("cov");
+    b.args(["+nightly", "build", "--offline", "-q", "--release", "-p", "mon"]);
+    b.env("RUSTFLAGS", "-Cinstrument-coverage");
+    // instrumented build scripts and proc macros would otherwise drop default_*.profraw files
+    // into the directory of the crate being compiled (i.e. into /repo)
+    let _ = std::fs::create_dir_all(vd.join("target/cov/buildprof"));
+    b.env("LLVM_PROFILE_FILE", vd.join("target/cov/buildprof/b-%p-%m.profraw"));
+    let built = run(b, Duration::from_secs(3600));
+    if built.code != Some(0) {
+        return json!({"tool": "llvm-cov", "built": false, "note": tail(&built.stderr, 300)});
+    }
+    let exe = vd.join("target/cov/release/vfmon");
+    let scratch = vd.join("target/cov/scratch").join(prop);
+    let prof = vd.join("target/cov/prof").join(prop);
+    let _ = std::fs::remove_dir_all(&prof);
+    let _ = std::fs::create_dir_all(&prof);
+    let _ = std::fs::create_dir_all(&scratch);
+    let _ = std::fs::copy(vd.join("known_findings.json"), scratch.join("known_findings.json"));
+    let mut c = Command::new(&exe);
+    c.args(["check", prop, "quick"]);
+    c.env("VERIF_DIR", &scratch).env("VERIF_WORKER_EXE", &exe).env("VERIF_NO_SANITIZERS", "1").env("VERIF_SEED", (ctx.seed as i64).to_string());
+    c.env("LLVM_PROFILE_FILE", prof.join("p-%p-%m.profraw"));
+    let ran = run(c, Duration::from_secs(3600));
+    // tools from the nightly sysroot
+    let sysroot = Command::new("rustc").args(["+nightly", "--print", "sysroot"]).output().ok().map(|o| String::from_utf8_lossy(&o.stdout).trim().to_string()).unwrap_or_default();
+    let bin = std::path::Path::new(&sysroot).join("lib/rustlib/x86_64-unknown-linux-gnu/bin");
+    let raws: Vec<std::path::PathBuf> = std::fs::read_dir(&prof).map(|d| d.flatten().map(|e| e.path()).filter(|p| p.extension().map(|x| x == "profraw").unwrap_or(false)).collect()).unwrap_or_default();
+    if raws.is_empty() {
+        return json!({"tool": "llvm-cov", "built": true, "note": format!("no profile written (exit {:?})", ran.code)});
+    }
+    let merged = prof.join("merged.profdata");
+    let mut m = Command::new(bin.join("llvm-profdata"));
+    m.arg("merge").arg("-sparse").args(&raws).arg("-o").arg(&merged);
+    let mo = run(m, Duration::from_secs(1800));
+    if mo.code != Some(0) {
+        return json!({"tool": "llvm-cov", "built": true, "note": format!("profdata merge failed: {}", tail(&mo.stderr, 200))});
+    }
+    let mut e = Command::new(bin.join("llvm-cov"));
+    e.args(["export", "-format=lcov", "-instr-profile"]).arg(&merged).arg(&exe).arg("-ignore-filename-regex=(registry|rustc|verif/harness)");
+    let eo = run(e, Duration::from_secs(1800));
+    if eo.code != Some(0) {
+        return json!({"tool": "llvm-cov", "built": true, "note": format!("llvm-cov export failed: {}", tail(&eo.stderr, 200))});
+    }
+    // lcov: SF:<file> ... DA:<line>,<count>
+    let mut per_file: std::collections::HashMap<String, std::collections::BTreeMap<u32, u64>> = std::collections::HashMap::new();
+    let mut cur = String::new();
+    for l in eo.stdout.lines() {
+        if let Some(f) = l.strip_prefix("SF:") {
+            cur = f.to_string();
+        } else if let Some(d) = l.strip_prefix("DA:") {
+            let mut it = d.split(',');
+            if let (Some(a), Some(b)) = (it.next(), it.next()) {
+                if let (Ok(a), Ok(b)) = (a.parse::<u32>(), b.parse::<u64>()) {
+                    let e = per_file.entry(cur.clone()).or_default().entry(a).or_insert(0);
+                    *e = (*e).max(b);
+                }
+            }
+        }
+    }
+    // anchors of this property
+    let mut anchors: Vec<String> = vec![];
+    if let Ok(t) = std::fs::read_to_string(vd.join("properties.jsonl")) {
+        for line in t.lines() {
+            if let Ok(p) = serde_json::from_str::<Value>(line) {
+                if p["id"].as_str() == Some(prop) {
+                    for mch in p["anchors"]["mechanism"].as_array().cloned().unwrap_or_default() {
+                        if let Some(w) = mch["where"].as_str() {
+                            anchors.push(w.to_string());
+                        }
+                    }
+                }
+            }
+        }
+    }
+    let mut rows = vec![];
+    let (mut tot, mut cov) = (0u64, 0u64);
+    for a in &anchors {
+        // forms: "src/x.rs:7-52", "src/x.rs:6-14 and src/y.rs:31-38", "src/x.rs:101-116 and 63-97", "src/x.rs:394 and 311-324"
+        let mut file = String::new();
+        for part in a.split(" and ") {
+            for piece in part.split(", ") {
+                let piece = piece.trim();
+                let (f, range) = match piece.rsplit_once(':') {
+                    Some((f, r)) if f.contains('/') => (f.to_string(), r.to_string()),
+                    _ => (file.clone(), piece.to_string()),
+                };
+                file = f.clone();
+                let (lo, hi) = match range.split_once('-') {
+                    Some((l, h)) => (l.trim().parse::<u32>().unwrap_or(0), h.trim().parse::<u32>().unwrap_or(0)),
+                    None => {
+                        let v = range.trim().parse::<u32>().unwrap_or(0);
+                        (v, v)
+                    }
+                };
+                // the anchors give line numbers of the pinned commit: map them to the working tree
+                let (lo, hi) = (map_line(&f, lo), map_line(&f, hi));
+                let lines = per_file.iter().find(|(k, _)| k.ends_with(&f)).map(|(_, v)| v);
+                let (mut n, mut c) = (0u64, 0u64);
+                if let Some(lines) = lines {
+                    for (_, cnt) in lines.range(lo..=hi) {
+                        n += 1;
+                        if *cnt > 0 {
+                            c += 1;
+                        }
+                    }
+                }
+                tot += n;
+                cov += c;
+                rows.push(json!({"anchor": format!("{}:{}-{}", f, lo, hi), "instrumented_lines": n, "executed_lines": c}));
+            }
+        }
+    }
+    json!({"tool": "llvm-cov", "built": true, "workload": format!("{} quick under -Cinstrument-coverage (workers included)", prop), "note": "anchor ranges are given for the pinned commit and mapped to the working tree through git diff hunks (hook and fix: commits shift lines)", "anchor_ranges": rows, "instrumented_lines_in_anchors": tot, "executed_lines_in_anchors": cov})
+}
+
 /// the sanitizer runs that belong to a property's thorough tier
 pub fn thorough(ctx: &Ctx, prop: &str) -> Vec<Value> {
     let mut v = vec![];
